@@ -16,8 +16,11 @@ NINF == -99980
 NONE == 99970
 Finite(x) == x \notin {NAN, PINF, NINF}
 
+\* tag 4: an opaque exact label (wide-value family: integers beyond 32 bits as decimal strings; for
+\* mean/var/std the float bridge has already decided "equal within 1e-9 relative" and hands equal labels)
 EntryEq(a, b) == IF a[1] # b[1] THEN FALSE
                  ELSE IF a[1] = 0 THEN a[2]*b[3] = b[2]*a[3]
+                 ELSE IF a[1] = 4 THEN a[4] = b[4]
                  ELSE a[1] # 9
 
 RowEq(r, s) == /\ r.zone2 = s.zone2 /\ Len(r.cells) = Len(s.cells)
